@@ -21,6 +21,8 @@ Decides:
  M  both absent   the absent exits build Missing(item) or NoEnv(name); both are catchable (defaults apply).
  R2 count            count() counts a success that consumed nothing (a flag present only through its variable).
  M absent rows     every default-supplying wrapper reacts to NoEnv / Missing (rows of the K3 table, shared with C06).
+ R3 loop exits        whether collect / many / some / .. go round again never depends on State::is_empty() or positions: an env-backed item succeeds
+                  without consuming anything (shared with C06).
 Does not decide: behaviour of the wrappers around an env-backed item (C06)."""
 import re
 from core import *
